@@ -414,7 +414,45 @@ def _wait(chk, repo, folder):
                 parts = {ff.norm(x, subst=False) for x in e.values}
                 if parts == {"emcy_code is not None", f"emcy_code != {v}.code"}:
                     ok = True
-        if ok:
+        # decided by evaluation where possible: what precedes the loop is specialised for a filter (None, 0 = error reset, two other
+        # codes), then the conditions that mention the entry's code are evaluated for entries with those codes
+        decided = None
+        if not ok:
+            from .common import conj_of_facts, partial_eval as _pe
+            from ..fold import RecordVal
+            head = []
+            for st_ in f.node.body:
+                if isinstance(st_, (ast.While, ast.For)):
+                    break
+                if isinstance(st_, ast.Assign) and "time.time" in src(st_.value):
+                    continue
+                head.append(st_)
+            mine = [(e, p) for e, p in facts if f"{v}.code" in src(e)]
+            if mine:
+                import copy as _cp
+                fn_ = ast.FunctionDef(name="_filter", args=ast.arguments(posonlyargs=[], args=[ast.arg(arg="emcy_code"), ast.arg(arg=v)], kwonlyargs=[], kw_defaults=[], defaults=[]),
+                                      body=[_cp.deepcopy(x) for x in head] + [ast.Return(value=conj_of_facts(mine))], decorator_list=[])
+                ast.fix_missing_locations(fn_)
+                wrong = None
+                for flt in (None, 0, 0x1000, 0x8130):
+                    for code_ in (0, 0x1000, 0x8130, 0x2000):
+                        r_ = _pe(folder, fn_, f.mod, f.cls, {"emcy_code": flt, v: RecordVal({"code": code_}, isa=("EmcyError",)), "timeout": 10})
+                        if r_[0] != "return":
+                            wrong = "?"
+                            break
+                        want_ = flt is None or code_ == flt
+                        if bool(r_[1]) != want_:
+                            wrong = wrong or f"waiting for {'any code' if flt is None else hex(flt)}, an entry with code {code_:#06x} is {'handed out' if r_[1] else 'passed over'}" \
+                                + (" -- the legal code 0 (error reset) is treated as 'no filter'" if flt == 0 else "")
+                    if wrong == "?":
+                        break
+                if wrong != "?":
+                    decided = wrong or True
+        if decided is True:
+            chk.ok("R5", f"{EM}:EmcyConsumer.wait | code filter", f.loc(r), "specialised for 4 filters x 4 entry codes")
+        elif decided:
+            chk.bad("R5", f"{EM}:EmcyConsumer.wait | code filter", f.loc(r), decided)
+        elif ok:
             chk.ok("R5", f"{EM}:EmcyConsumer.wait | code filter", f.loc(r))
         elif badform:
             chk.bad("R5", f"{EM}:EmcyConsumer.wait | code filter", f.loc(r),
